@@ -331,13 +331,18 @@ func minimalTail(t int) []byte {
 // nestGen nests options of the given kinds as deep as n octets allow; the
 // innermost level holds `tail` octets of minimal options.
 func nestGen(k nestKind, tailQ, n int) []byte {
-	room := n - 4
-	tail := minimalTail(room * tailQ / 4)
-	room -= len(tail)
-	// how many levels fit
+	return nestGenX(k, n, minimalTail((n-4)*tailQ/4), nil, false)
+}
+
+// nestGenX is the general form: the innermost option list is `tail` (any bytes,
+// e.g. minimal options followed by a malformed element), and every level's
+// option list holds, beside the container, one sibling option `sib` (before or
+// after the container).
+func nestGenX(k nestKind, n int, tail, sib []byte, sibBefore bool) []byte {
+	room := n - 4 - len(tail)
 	d, used := 0, 0
 	for {
-		c := 4 + k.Fixed[d%len(k.Fixed)]
+		c := 4 + k.Fixed[d%len(k.Fixed)] + len(sib)
 		if used+c > room {
 			break
 		}
@@ -346,37 +351,103 @@ func nestGen(k nestKind, tailQ, n int) []byte {
 	}
 	b := make([]byte, 0, n)
 	b = append(b, v6hdr...)
-	remaining := used + len(tail) // octets from here to the end of the message
+	remaining := used + len(tail) // octets of the option list at this level
 	for i := 0; i < d; i++ {
 		fx := k.Fixed[i%len(k.Fixed)]
+		if sibBefore {
+			b = append(b, sib...)
+		}
 		b = be16(b, k.Codes[i%len(k.Codes)])
-		b = be16(b, remaining-4)
+		b = be16(b, remaining-len(sib)-4)
 		for j := 0; j < fx; j++ {
 			b = append(b, 0)
 		}
-		remaining -= 4 + fx
+		remaining -= 4 + fx + len(sib)
 	}
-	return append(b, tail...)
+	b = append(b, tail...)
+	if !sibBefore {
+		for i := 0; i < d; i++ {
+			b = append(b, sib...)
+		}
+	}
+	return b
 }
 
 func relayGen(tailQ, n int) []byte {
+	return relayGenX(n, minimalTail((n-4)*tailQ/4), nil, false)
+}
+
+// relayGenX nests relay-forward messages as deep as n octets allow around an
+// innermost plain message whose options are innerOpts; every relay level holds
+// one sibling option beside its relay-msg option.
+func relayGenX(n int, innerOpts, sib []byte, sibBefore bool) []byte {
 	inner := append([]byte{}, v6hdr...)
-	tail := minimalTail((n - 4) * tailQ / 4)
-	inner = append(inner, tail...)
-	room := n - len(inner)
-	d := room / 38
+	inner = append(inner, innerOpts...)
+	per := 38 + len(sib)
+	d := (n - len(inner)) / per
+	if d < 0 {
+		d = 0
+	}
 	b := make([]byte, 0, n)
-	remaining := d*38 + len(inner)
+	remaining := d*per + len(inner) // octets of the message starting here
 	for i := 0; i < d; i++ {
 		b = append(b, 12, byte(i)) // RELAY-FORW, hop count
 		for j := 0; j < 32; j++ {
 			b = append(b, byte(0x20+j%2)) // link / peer address
 		}
+		if sibBefore {
+			b = append(b, sib...)
+		}
 		b = be16(b, 9)
-		b = be16(b, remaining-38)
-		remaining -= 38
+		b = be16(b, remaining-per)
+		remaining -= per
 	}
-	return append(b, inner...)
+	b = append(b, inner...)
+	if !sibBefore {
+		for i := 0; i < d; i++ {
+			b = append(b, sib...)
+		}
+	}
+	return b
+}
+
+// containerKinds = the nestKinds plus the relay chain (index len(nestKinds)).
+func containerName(i int) string {
+	if i < len(nestKinds) {
+		return nestKinds[i].Name
+	}
+	return "relay-msg"
+}
+
+func containerGen(i, n int, tail, sib []byte, sibBefore bool) []byte {
+	if i < len(nestKinds) {
+		return nestGenX(nestKinds[i], n, tail, sib, sibBefore)
+	}
+	return relayGenX(n, tail, sib, sibBefore)
+}
+
+// failingElements: malformed innermost elements; each makes the whole decode
+// fail only after every enclosing level has been entered.
+var failingElements = []struct {
+	Name string
+	B    []byte
+}{
+	{"empty relay-msg option", []byte{0, 9, 0, 0}},
+	{"truncated option header (3 octets)", []byte{0, 1, 0}},
+	{"elapsed-time with length 1", []byte{0, 8, 0, 1, 0}},
+	{"option length overruns (ffff)", []byte{0xff, 0xf0, 0xff, 0xff}},
+	{"DHCPv4-msg holding 10 octets", v6opt(87, make([]byte, 10))},
+	{"vendor-opts with a truncated sub-option", v6opt(17, []byte{0, 0, 1, 0x37, 0, 1, 0})},
+	{"IA_NA shorter than its fixed part", v6opt(3, make([]byte, 4))},
+}
+
+var siblingOptions = []struct {
+	Name string
+	B    []byte
+}{
+	{"unknown option 65001, 1 octet", []byte{0xfd, 0xe9, 0, 1, 'x'}},
+	{"elapsed-time", []byte{0, 8, 0, 2, 0, 0}},
+	{"status-code, empty message", []byte{0, 13, 0, 2, 0, 0}},
 }
 
 // minimalPayload is the shortest all-zero payload the reference decoder accepts
@@ -536,6 +607,40 @@ func families() []family {
 		Params: []param{{0, 0, 0, "relay-forward nested to maximal depth"}, {2, 0, 0, "… innermost message with minimal options = 1/2 of the datagram"}, {3, 0, 0, "… = 3/4 of the datagram"}},
 		Grid:   "innermost tail {0, 1/2, 3/4}",
 		Gen:    func(p param, n int) []byte { return relayGen(p.A, n) }})
+	// nesting whose innermost element is malformed: the error path of every level
+	{
+		var ps []param
+		for ci := 0; ci <= len(nestKinds); ci++ {
+			for fi, f := range failingElements {
+				for _, tq := range []int{0, 2} {
+					ps = append(ps, param{ci, fi, tq, fmt.Sprintf("%s nested to maximal depth, innermost list = minimal options (%d/4 of the message) + %s", containerName(ci), tq, f.Name)})
+				}
+			}
+		}
+		out = append(out, family{Name: "nested-failing-innermost", Class: "nested-failing-innermost", Entry: eV6, Params: ps,
+			Grid: "container {IA_NA, IA_TA, IAADDR, IA_PD, IAPREFIX, 4RD, IA_NA/IAADDR, IA_PD/IAPREFIX, relay-msg} x malformed innermost element {empty relay-msg, truncated header, wrong fixed length, overrunning length, short DHCPv4-msg, vendor-opts with truncated sub-option, short IA_NA} x innermost tail {0, 1/2}; the decode fails, only allocDec applies",
+			Gen: func(p param, n int) []byte {
+				f := failingElements[p.B].B
+				tail := append(minimalTail((n-4)*p.C/4), f...)
+				return containerGen(p.A, n, tail, nil, false)
+			}})
+	}
+	// nesting with one small sibling option beside the container at every level
+	{
+		var ps []param
+		for ci := 0; ci <= len(nestKinds); ci++ {
+			for si, sb := range siblingOptions {
+				for _, before := range []int{0, 1} {
+					ps = append(ps, param{ci, si, before, fmt.Sprintf("%s nested to maximal depth, %s %s the container at every level", containerName(ci), sb.Name, map[int]string{0: "after", 1: "before"}[before])})
+				}
+			}
+		}
+		out = append(out, family{Name: "nested+sibling-per-level", Class: "nested+sibling-per-level", Entry: eV6, Params: ps, Derive: true,
+			Grid: "container {IA_NA, IA_TA, IAADDR, IA_PD, IAPREFIX, 4RD, IA_NA/IAADDR, IA_PD/IAPREFIX, relay-msg} x sibling {unknown option 65001 with 1 octet, elapsed-time, status-code} x position {after, before}",
+			Gen: func(p param, n int) []byte {
+				return containerGen(p.A, n, nil, siblingOptions[p.B].B, p.C == 1)
+			}})
+	}
 	// thousands of minimal options, every option type
 	{
 		var ps []param
